@@ -59,6 +59,19 @@ def _vals_new_and_distinct(ex, st, d):
     return _VB(T(f"(and {f1} {f2})", BOOL))
 
 
+@R.specfn("entry_closed")
+def _entry_closed(ex, st, d):
+    """heap closure at function entry for a table of references: every value stored in the table was allocated before
+    entry (one quantified fact over the table's value array).  Only meaningful in entry_facts."""
+    from pyvc.smt import T, BOOL, select, arr
+    d = ex.unwrap(d)
+    ks, dom, vals = ex._dict_keys(d)
+    domt = select(ex.heap_array(st, dom, "Int", arr(ks, "Bool")), d.t)
+    valt = select(ex.heap_array(st, vals[0][0], "Int", arr(ks, vals[0][1])), d.t)
+    a0 = (ex.entry_state or st).alloc.s
+    return _VB(T(f"(forall ((k!c {ks})) (=> (select {domt.s} k!c) (< (select {valt.s} k!c) {a0})))", BOOL))
+
+
 @R.specfn("entry_allocated")
 def _entry_allocated(ex, st, v):
     """heap closure at function entry: a reference read from the entry heap denotes an object allocated before entry.
